@@ -1,6 +1,9 @@
 package main
 
-import "fmt"
+import (
+	"fmt"
+	"strings"
+)
 
 func init() {
 	registerCheck(&CheckDef{
@@ -36,6 +39,9 @@ func init() {
 			for _, scheme := range versSchemes {
 				ts := versVersionTemplates(scheme, "thorough")
 				for _, shape := range []string{">=%s|<%s", "<%s|>=%s|!=%s", "=%s", "*", ">%s|<=%s|>%s|<=%s"} {
+					if (scheme == "gem" || scheme == "maven") && strings.Count(shape, "|") >= 3 {
+						continue
+					}
 					r := "vers:" + scheme + "/" + fillShape(shape, ts)
 					out = append(out, &Config{ID: fmt.Sprintf("C19/vers/%s/%s", scheme, r), Pkg: zzhPkg, Func: "C19Vers", Monitor: true, Args: []ArgSpec{ArgTmpl(r), ArgTmpl(ts[0])}})
 				}
